@@ -480,8 +480,9 @@ def dget (d : List (String × Option String)) (k : String) : Option String := (a
 
 /-- which quantizer strings `model_quantize(model, q_dict, activation_bits)` puts on a layer
     given the layer's entry in `q_dict` (only layer-name keys occur in AutoQKeras dictionaries).
-    Covers Dense/Conv1D/Conv2D/Separable (read `kernel_quantizer`, `bias_quantizer`,
-    `activation_quantizer`), DepthwiseConv2D (`depthwise_quantizer`), Activation (string entry). -/
+    Covers Dense/Conv1D/Conv2D (read `kernel_quantizer`, `bias_quantizer`,
+    `activation_quantizer`), DepthwiseConv2D and, since fix 5f2fbac, SeparableConv1D/2D (`depthwise_quantizer`),
+    Activation (string entry). -/
 def applied (entry : Option QEntry) (L : Layer) (activationBits : Int) : Applied :=
   let weightLayer (kkey : String) (d : List (String × Option String)) : Applied :=
     match dget d kkey with
@@ -491,11 +492,11 @@ def applied (entry : Option QEntry) (L : Layer) (activationBits : Int) : Applied
         bias := if L.useBias then dget d "bias_quantizer" else none,
         activation := if truthy (dget d "activation_quantizer") then dget d "activation_quantizer"
                       else quantizeActivation L.act activationBits }
-  if L.cls ∈ ["Dense", "Conv1D", "Conv2D", "SeparableConv1D", "SeparableConv2D"] then
+  if L.cls ∈ ["Dense", "Conv1D", "Conv2D"] then
     match entry with
     | some (.dict d) => weightLayer "kernel_quantizer" d
     | _ => {}
-  else if L.cls = "DepthwiseConv2D" then
+  else if L.cls ∈ ["DepthwiseConv2D", "SeparableConv1D", "SeparableConv2D"] then
     match entry with
     | some (.dict d) => weightLayer "depthwise_quantizer" d
     | _ => {}
